@@ -38,11 +38,14 @@ var importMap = map[string][2]string{
 	"sync":                  {"verif/sim/simsync", "sync"},
 	"time":                  {"verif/sim/simtime", "time"},
 	"sync/atomic":           {"verif/sim/simatomic", "atomic"},
+	"math/rand":             {"verif/sim/simrand", "rand"},
+	"math/rand/v2":          {"verif/sim/simrand2", "rand"},
+	"crypto/rand":           {"verif/sim/simcrand", "rand"},
 }
 
 var forbidden = map[string]bool{
-	"net": true, "net/http": true, "os/exec": true, "math/rand": true, "math/rand/v2": true,
-	"os/signal": true, "crypto/rand": true, "sync/atomic": false,
+	"net": true, "net/http": true, "os/exec": true,
+	"os/signal": true, "sync/atomic": false,
 }
 
 type site struct {
